@@ -16,14 +16,35 @@ import (
 // Content lookup over loopback UDP (the real ContentLookup / contentLookupWorker / findContent / processContent of an
 // asker against scripted discv5 peers).  Lines:
 //
-//	cl <npeers> <answers> <table>:<delays-ms> | ok <started> <outcome>
-//	   answers  per peer 1..n separated by ';' : c<hex> content / e<i,j,..> closer nodes ("e." none) / x not listening
-//	            (request times out) / z empty response / g garbage response
-//	   started  peers whose FINDCONTENT handler ran, in order ("." none); outcome = found:<hex> | notfound | err:<msg>
+//	cl <npeers> <answers> <table>:<delays-ms> <kseed> <target> <ids> <scan> | ok <events> <outcome>
+//	   answers  per peer 1..n separated by ';' : c<hex> content ("c-" = zero-length) / e<i,j,..> closer nodes ("e." none) /
+//	            x not listening (request times out) / z empty response / g garbage response
+//	   kseed    seed of the node keys (ids and scan are derived from it; printed for the model)
+//	   target   the content id; ids = node identifiers, index 0 = asker; scan = table entries in findnodeByID visiting order
+//	   events   S<i> FINDCONTENT handler of peer i entered, A<i> it is about to return its answer, T<i> the asker's
+//	            lookup.query handed the outcome for i to tab.trackRequest (hint for the reply order; the only event of an x peer)
+//	   outcome  found:<hex> | notfound | err:<msg>
 type c10cnet struct {
 	peers  []portalwire.VerifContentPeer
 	table  []int
 	delays []int
+	kseed  uint64
+	// filled in by exec
+	ids  []string
+	scan []int
+}
+
+var c10contentKey = []byte{0x03, 0x04}
+
+func (k *c10cnet) keys() [][]byte {
+	r := NewRng(k.kseed)
+	out := make([][]byte, len(k.peers)+1)
+	for i := range out {
+		out[i] = r.Bytes(32)
+		out[i][0] &= 0x7f // below the group order
+		out[i][31] |= 1
+	}
+	return out
 }
 
 func (k *c10cnet) inputs() string {
@@ -38,7 +59,13 @@ func (k *c10cnet) inputs() string {
 			ans[i] = string(p.Kind)
 		}
 	}
-	return fmt.Sprintf("cl %d %s %s:%s", len(k.peers), strings.Join(ans, ";"), c10idxs(k.table), c10idxs(k.delays))
+	ids := "."
+	if len(k.ids) > 0 {
+		ids = strings.Join(k.ids, ",")
+	}
+	tgt := sha256.Sum256(c10contentKey)
+	return fmt.Sprintf("cl %d %s %s:%s %d %x %s %s", len(k.peers), strings.Join(ans, ";"), c10idxs(k.table), c10idxs(k.delays),
+		k.kseed, tgt[:], ids, c10idxs(k.scan))
 }
 
 func c10cparse(f []string) *c10cnet {
@@ -61,30 +88,59 @@ func c10cparse(f []string) *c10cnet {
 			k.peers[i].Delay = time.Duration(k.delays[i]) * time.Millisecond
 		}
 	}
+	if len(f) > 4 {
+		k.kseed, _ = strconv.ParseUint(f[4], 10, 64)
+	}
 	return k
 }
 
 func c10cexec(k *c10cnet) string {
-	net, err := portalwire.VerifContentNetNew(k.peers, k.table)
+	net, err := portalwire.VerifContentNetNewKeys(k.peers, k.table, k.keys())
 	if err != nil {
 		return "err setup " + strings.ReplaceAll(err.Error(), " ", "_")
 	}
 	defer net.Close()
-	key := []byte{0x03, 0x04}
-	id := sha256.Sum256(key)
+	k.ids = nil
+	for _, id := range net.IDs() {
+		k.ids = append(k.ids, c10hexid(id))
+	}
+	k.scan = net.TableScan()
+	id := sha256.Sum256(c10contentKey)
 	type out struct {
-		c       []byte
-		err     error
-		started []int
+		c   []byte
+		err error
 	}
 	ch := make(chan out, 1)
 	go func() {
-		c, err, st := net.Lookup(key, id[:])
-		ch <- out{c, err, st}
+		c, err, _ := net.Lookup(c10contentKey, id[:])
+		ch <- out{c, err}
 	}()
+	count := func(ev []string, k byte) int {
+		n := 0
+		for _, e := range ev {
+			if e[0] == k {
+				n++
+			}
+		}
+		return n
+	}
 	select {
 	case o := <-ch:
-		st := c10idxs(o.started)
+		// every query has been drained; its T event is logged by another goroutine and may still be on its way
+		var ev []string
+		for w := 0; w < 400; w++ {
+			ev = net.Events()
+			if count(ev, 'T') >= count(ev, 'S') {
+				break
+			}
+			time.Sleep(500 * time.Microsecond)
+		}
+		time.Sleep(3 * time.Millisecond)
+		ev = net.Events()
+		st := "."
+		if len(ev) > 0 {
+			st = strings.Join(ev, ",")
+		}
 		switch {
 		case o.err == nil:
 			return fmt.Sprintf("ok %s found:%s", st, hx(o.c))
@@ -94,7 +150,7 @@ func c10cexec(k *c10cnet) string {
 			return fmt.Sprintf("ok %s err:%s", st, strings.ReplaceAll(o.err.Error(), " ", "_"))
 		}
 	case <-time.After(30 * time.Second):
-		return "err timeout"
+		return "err timeout " + strings.Join(net.Events(), ",")
 	}
 }
 
@@ -108,7 +164,16 @@ func c10cgen(c *Ctx) *c10cnet {
 		switch x := r.Intn(10); {
 		case x < 2:
 			p.Kind = 'c'
-			p.Content = append([]byte{byte(i)}, r.Bytes(1+r.Intn(20))...)
+			switch r.Intn(5) {
+			case 0: // a zero-length value is content too
+				p.Content = []byte{}
+				c.Count("content_answer_empty")
+			case 1: // one byte
+				p.Content = []byte{byte(i)}
+				c.Count("content_answer_1byte")
+			default:
+				p.Content = append([]byte{byte(i)}, r.Bytes(1+r.Intn(20))...)
+			}
 			ncontent++
 		case x < 7:
 			p.Kind = 'e'
@@ -138,6 +203,7 @@ func c10cgen(c *Ctx) *c10cnet {
 		}
 	}
 	c.Count(fmt.Sprintf("content_peers_with_content_%d", ncontent))
+	k.kseed = r.U64() % 1000000007
 	return k
 }
 
@@ -149,10 +215,33 @@ func c10content(c *Ctx) {
 	if c.N > 0 && c.N < 100 {
 		n = 4
 	}
-	nets := make([]*c10cnet, n)
-	for i := range nets {
-		nets[i] = c10cgen(c)
+	// directed nets first: boundary contents (0 and 1 byte) found at the first peer, found behind a peer that only
+	// knows closer nodes, as the only content answer next to failing peers, and next to a non-empty holder
+	E := func(closer ...int) portalwire.VerifContentPeer {
+		return portalwire.VerifContentPeer{Kind: 'e', Closer: closer}
 	}
+	C := func(b ...byte) portalwire.VerifContentPeer {
+		return portalwire.VerifContentPeer{Kind: 'c', Content: append([]byte{}, b...)}
+	}
+	K := func(k byte) portalwire.VerifContentPeer { return portalwire.VerifContentPeer{Kind: k} }
+	mk := func(table []int, peers ...portalwire.VerifContentPeer) *c10cnet {
+		return &c10cnet{peers: peers, table: table, delays: make([]int, len(peers)), kseed: c.Rng.U64() % 1000000007}
+	}
+	nets := []*c10cnet{
+		mk([]int{1}, C()),                             // found first, empty
+		mk([]int{1}, C(7)),                            // found first, one byte
+		mk([]int{1}, E(2), C()),                       // found later, empty
+		mk([]int{1}, E(2), E(3), C(9)),                // found later, one byte
+		mk([]int{1, 2}, K('z'), E(3, 4), K('g'), C()), // the only content answer is empty
+		mk([]int{1}, E(2, 3), C(), C(3, 3, 3)),        // empty and non-empty holders
+		mk([]int{1, 2, 3}, C(), C(), C()),             // everybody holds the empty value
+		mk([]int{1}, E(0, 1, 2), E(1), K('x')),        // nobody has it
+	}
+	c.Count("content_directed_nets")
+	for len(nets) < n+8 {
+		nets = append(nets, c10cgen(c))
+	}
+	n = len(nets)
 	outs := make([]string, n)
 	var wg sync.WaitGroup
 	sem := make(chan struct{}, 6)
@@ -171,6 +260,9 @@ func c10content(c *Ctx) {
 		if strings.Contains(outs[i], "found:") {
 			c.Count("content_found")
 		}
+		if strings.Contains(outs[i], ",A") {
+			c.Count("content_lookups_with_queries")
+		}
 		c.Emit("%s | %s", nets[i].inputs(), outs[i])
 	}
 }
@@ -180,7 +272,8 @@ func c10contentReplay(c *Ctx, f []string) {
 		return
 	}
 	k := c10cparse(f)
-	c.Emit("%s | %s", k.inputs(), c10cexec(k))
+	out := c10cexec(k)
+	c.Emit("%s | %s", k.inputs(), out)
 }
 
 var _ = strconv.Itoa
